@@ -59,6 +59,36 @@ def closure_state(fn):
     return tuple(out)
 
 
+_ORIG = None
+_NOTHING = object()
+
+
+def _seams_on(u):
+    """Before a reset: give term_image.utils its import-time cache / lock OBJECTS back (a simulated
+    process start rebinds them; a reset that created new objects would change their identity, which
+    a library holding references to the old ones could tell)."""
+    global _ORIG
+    if _ORIG is None:
+        if not isinstance(u._cell_size_cache, list):
+            raise world.HarnessError("C15: term_image.utils._cell_size_cache is not in its import state")
+        _ORIG = dict(cache=u._cell_size_cache, clock=u._cell_size_lock, tlock=u._tty_lock, mp_RLock=u.mp_RLock,
+                     Array=u.Array, wrapped=u._process_start_wrapper.__dict__.get("__wrapped__", _NOTHING))
+    u._cell_size_cache, u._cell_size_lock, u._tty_lock = _ORIG["cache"], _ORIG["clock"], _ORIG["tlock"]
+
+
+def _seams_off():
+    if _ORIG is None:
+        return
+    u = world.load().utils
+    _seams_on(u)
+    u._cell_size_cache[:] = [0] * 4
+    u.mp_RLock, u.Array = _ORIG["mp_RLock"], _ORIG["Array"]
+    if _ORIG["wrapped"] is _NOTHING:
+        u._process_start_wrapper.__dict__.pop("__wrapped__", None)
+    else:
+        u._process_start_wrapper.__wrapped__ = _ORIG["wrapped"]
+
+
 class ProbeFailure(Exception):
     """Raised by a probe body that was told to fail."""
 
@@ -74,7 +104,12 @@ class Impl:
         self.L = L = world.load()
         self.envs = envs
         e = envs[env0]
+        u = L.utils
+        _seams_on(u)
         self.tty = world.setup("kitty", e.cols, e.rows)
+        # op "start": the real _process_start_wrapper on a process object that starts nothing
+        u.mp_RLock, u.Array = sched.HProcLock, sched.HArray
+        u._process_start_wrapper.__wrapped__ = lambda proc, *a, **k: None
         self.apply_env(env0)
         self.e = env0
         self.runs = {"tsc": 0, 0: 0, 1: 0}
@@ -169,6 +204,10 @@ class Impl:
             return (v, self.runs["tsc"] - n)
         elif k == "fail_next":
             self.fail_next = True
+        elif k == "start":
+            import types
+
+            u._process_start_wrapper(types.SimpleNamespace())
         elif k == "tsc_inv":
             self.tsc._invalidate_terminal_size_cache()
         elif k == "cached":
@@ -188,7 +227,7 @@ class Impl:
         L = self.L
         u, ti = L.utils, L.ti
         isk = L.common.TextImage.__dict__.get("_is_on_kitty")
-        return (self.e, self.fail_next, tuple(u._cell_size_cache), u._queries_enabled, u._swap_win_size, ti._cell_ratio,
+        return (self.e, self.fail_next, type(u._cell_size_cache).__name__, tuple(u._cell_size_cache), u._queries_enabled, u._swap_win_size, ti._cell_ratio,
                 ti.AutoCellRatio.is_supported, closure_state(u.get_fg_bg_colors),
                 closure_state(u.get_terminal_name_version), closure_state(isk), closure_state(self.tsc),
                 closure_state(self.cached))
@@ -234,7 +273,7 @@ def alphabet(group, nenv):
     res = [["resize", i] for i in range(nenv)] if nenv > 1 else []
     sw = [["swap", 1], ["swap", 0]]
     qu = [["queries", 0], ["queries", 1]]
-    a = [["ratio", "FIXED"], ["ratio", "DYNAMIC"], ["ratio", 0.5], ["cell_size"], ["cell_ratio"]]
+    a = [["ratio", "FIXED"], ["ratio", "DYNAMIC"], ["ratio", 0.5], ["cell_size"], ["cell_ratio"], ["start"]]
     b = [["colors", -1], ["colors", 1], ["name"], ["render"]]
     if group == "query-memos3":
         return res + qu + b + [["colors", 0]]
@@ -661,6 +700,7 @@ def run(ctx):
             if merged and depth is None and not r["fixpoint"]:
                 ctx.cap(f"search {name} did not reach its fixpoint")
         world.uninstall()
+        _seams_off()
         by = {r["search"]: r for r in summaries}
         for r in summaries:
             if not r["merged"]:
@@ -724,3 +764,4 @@ def replay(ctx, case):
             ctx.violation(sig, f"after {steps[:i]}: {what}", case)
             break
     world.uninstall()
+    _seams_off()
